@@ -51,7 +51,8 @@ class C05(Property):
             "complete statement; distinct_nontrivial counts distinct "
             "(configuration family, level, damaged token-kind string) "
             "among those - approximated per run by the run's event-log "
-            "digest, i.e. distinct runs containing such loads.")
+            "digest, i.e. distinct runs containing such loads."
+            " Also generated: malformed and doubled units delimiters, odd-space tokens, block names in another case, a value lost plus the text ending a few tokens later (4 plans per label), container classes of the caller's own, quoted strings of 2**15-1..2**16+7 characters (2% of runs, whole and torn), '#' comments ending in a dash (open known finding, matched only after a counterfactual re-run).")
     ASSUMPTIONS = [
         "well-formedness of a damaged token sequence is decided by the "
         "token-kind recogniser sim/refparse.py (grammar quoted in the "
